@@ -46,8 +46,10 @@ def Body.need : Body → Nat
   | .not b => b.need
   | _ => 0
 
+/-- rules of the fragment: no arguments; push-back, if any, a list of ground terminals -/
 def Rule.simple (r : Rule) : Bool :=
-  r.args.isEmpty && r.pushback.isNone && r.body.simple && r.nv == 0 && !reserved.contains r.name
+  r.args.isEmpty && (match r.pushback with | none => true | some pb => pb.all groundT) &&
+    r.body.simple && r.nv == 0 && !reserved.contains r.name
 
 /-! ### the reference evaluation on the goal shapes a simple translation produces -/
 
@@ -143,11 +145,10 @@ def Ext (st : St) (s lo hi : Nat) (st' : St) : Prop :=
   ∃ Δ, st'.σ = Δ ++ st.σ ∧
     ∀ p ∈ Δ, p.1 = s ∨ (lo ≤ p.1 ∧ p.1 < hi) ∨ (st.next ≤ p.1 ∧ p.1 < st'.next)
 
-/-- what has to hold before a translated body is run: the input dereferences to the ground list
-    `l`; the remainder variable `s` and the hidden variables [lo, hi) are unbound and in scope -/
+/-- what has to hold before a translated body is run: the input denotes the ground list `l`;
+    the remainder variable `s` and the hidden variables [lo, hi) are unbound and in scope -/
 structure Pre (st : St) (x : Term) (l : List Term) (s lo hi : Nat) : Prop where
-  inp : walk st.σ x = Term.list l Term.nilT
-  gl : ∀ t ∈ l, groundT t = true
+  inp : Denotes st.σ x l
   sUnb : ∀ p ∈ st.σ, p.1 ≠ s
   hUnb : ∀ p ∈ st.σ, ¬ (lo ≤ p.1 ∧ p.1 < hi)
   sLt : s < st.next
@@ -156,11 +157,11 @@ structure Pre (st : St) (x : Term) (l : List Term) (s lo hi : Nat) : Prop where
   wf : ∀ p ∈ st.σ, p.1 < st.next
 
 /-- an answer of the reference evaluation and an answer of the denotation: the denotation's
-    state is untouched, its remainder is a ground list, and the remainder variable dereferences
-    to the same list -/
+    state is untouched, its remainder is a ground list, and the remainder variable denotes the
+    same list -/
 def AnsRel (st : St) (s lo hi : Nat) (dst : St) (st' : St) (a : St × Term) : Prop :=
-  a.1 = dst ∧ ∃ r : List Term, a.2 = Term.list r Term.nilT ∧ (∀ t ∈ r, groundT t = true) ∧
-    walk st'.σ (.var s) = Term.list r Term.nilT ∧ Ext st s lo hi st'
+  a.1 = dst ∧ ∃ r : List Term, a.2 = Term.list r Term.nilT ∧
+    Denotes st'.σ (.var s) r ∧ Ext st s lo hi st'
 
 def Rel (st : St) (s lo hi : Nat) (dst : St) : Res SOut → Res Out → Prop
   | .error _, .error _ => True
@@ -228,8 +229,8 @@ theorem Ext.walk_stable {st st' : St} {s lo hi : Nat} (h : Ext st s lo hi st') (
 theorem AnsRel.mono {st dst st' : St} {s lo hi lo' hi' : Nat} {a : St × Term}
     (h : AnsRel st s lo hi dst st' a) (hsub : ∀ v, lo ≤ v → v < hi → lo' ≤ v ∧ v < hi') :
     AnsRel st s lo' hi' dst st' a := by
-  obtain ⟨a1, r, a2, a3, a4, a5⟩ := h
-  exact ⟨a1, r, a2, a3, a4, a5.mono hsub⟩
+  obtain ⟨a1, r, a2, a3, a5⟩ := h
+  exact ⟨a1, r, a2, a3, a5.mono hsub⟩
 
 theorem Rel.mono {st dst : St} {s lo hi lo' hi' : Nat} {x : Res SOut} {y : Res Out}
     (h : Rel st s lo hi dst x y) (hsub : ∀ v, lo ≤ v → v < hi → lo' ≤ v ∧ v < hi') :
@@ -240,8 +241,8 @@ theorem Rel.mono {st dst : St} {s lo hi lo' hi' : Nat} {x : Res SOut} {y : Res O
 /-- sequencing: run a second part in every answer of a first part -/
 theorem seq_sim {st dst : St} {s m lo hi lo1 hi1 lo2 hi2 : Nat}
     (k : St → Res SOut) (kd : St → Term → Res Out)
-    (hk : ∀ st' r, Ext st m lo1 hi1 st' → walk st'.σ (.var m) = Term.list r Term.nilT →
-      (∀ t ∈ r, groundT t = true) → Rel st' s lo2 hi2 dst (k st') (kd dst (Term.list r Term.nilT)))
+    (hk : ∀ st' r, Ext st m lo1 hi1 st' → Denotes st'.σ (.var m) r →
+      Rel st' s lo2 hi2 dst (k st') (kd dst (Term.list r Term.nilT)))
     (hm : lo ≤ m ∧ m < hi) (a1 : lo ≤ lo1) (a2 : hi1 ≤ hi) (b1 : lo ≤ lo2) (b2 : hi2 ≤ hi)
     {As : List St} {Ds : List (St × Term)} (h : All2 (AnsRel st m lo1 hi1 dst) As Ds) :
     Rel st s lo hi dst (sAndThen k As) (andThen kd Ds) := by
@@ -249,10 +250,10 @@ theorem seq_sim {st dst : St} {s m lo hi lo1 hi1 lo2 hi2 : Nat}
   | nil => simp [sAndThen, andThen, Rel]; exact .nil
   | @cons st' a As Ds hr _ ih =>
     obtain ⟨sa, ra⟩ := a
-    obtain ⟨e1, r, e2, gr, hw, hext⟩ := hr
+    obtain ⟨e1, r, e2, hw, hext⟩ := hr
     simp only at e1 e2
     subst e1 e2
-    have h1 := hk st' r hext hw gr
+    have h1 := hk st' r hext hw
     simp only [sAndThen, andThen]
     cases hx : k st' with
     | error e =>
@@ -267,8 +268,8 @@ theorem seq_sim {st dst : St} {s m lo hi lo1 hi1 lo2 hi2 : Nat}
         obtain ⟨c1, hall⟩ := h1
         have hall' : All2 (AnsRel st s lo hi sa) o.answers od.answers := by
           refine hall.imp (fun st'' a h => ?_)
-          obtain ⟨f1, r', f2, f3, f4, f5⟩ := h
-          exact ⟨f1, r', f2, f3, f4, hext.comp f5 hm a1 a2 b1 b2⟩
+          obtain ⟨f1, r', f2, f4, f5⟩ := h
+          exact ⟨f1, r', f2, f4, hext.comp f5 hm a1 a2 b1 b2⟩
         by_cases hc : o.cut = true
         · have hc' : od.cut = true := c1 ▸ hc
           simp only [hc, hc', if_true, Rel]
@@ -342,19 +343,20 @@ theorem Rel.comp {st st' dst : St} {s m lo hi lo1 hi1 lo2 hi2 : Nat} {x : Res SO
     Rel st s lo hi dst x y := by
   cases x <;> cases y <;> simp_all [Rel]
   refine h.2.imp (fun st'' a h => ?_)
-  obtain ⟨f1, r', f2, f3, f4, f5⟩ := h
-  exact ⟨f1, r', f2, f3, f4, hext.comp f5 hm a1 a2 b1 b2⟩
+  obtain ⟨f1, r', f2, f4, f5⟩ := h
+  exact ⟨f1, r', f2, f4, hext.comp f5 hm a1 a2 b1 b2⟩
 
 /-- the step `S0 = S` that ends the translation of every non-consuming construct -/
 theorem eq_step (uf : Nat) (huf : 1 ≤ uf) (call : Term → St → Res SOut) {st : St} {x : Term} {l : List Term}
     {s lo hi : Nat} (P : Pre st x l s lo hi) (dst : St) :
     solveGoal uf call (Term.a2 "=" x (.var s)) st =
-        .ok ⟨[{ st with σ := (s, Term.list l Term.nilT) :: st.σ }], false⟩ ∧
-      AnsRel st s lo hi dst { st with σ := (s, Term.list l Term.nilT) :: st.σ } (dst, Term.list l Term.nilT) := by
+        .ok ⟨[{ st with σ := (s, walk st.σ x) :: st.σ }], false⟩ ∧
+      AnsRel st s lo hi dst { st with σ := (s, walk st.σ x) :: st.σ } (dst, Term.list l Term.nilT) := by
   obtain ⟨k, hk⟩ : ∃ k, uf = k + 1 := ⟨uf - 1, by omega⟩
   constructor
-  · rw [solveGoal_eq, hk, unify_nonvar_var k st.σ x _ s P.inp (isVar_list l) P.sUnb]
-  · exact ⟨rfl, l, rfl, P.gl, walk_bind st.σ s _ P.sUnb, Ext.refl_bind st s _ _ _ P.sLt P.wf⟩
+  · rw [solveGoal_eq, hk, unify_nonvar_var k st.σ x _ s rfl P.inp.walk_nonvar P.sUnb]
+  · exact ⟨rfl, l, rfl, Denotes.of_bind s P.inp.walked P.inp.walk_nonvar P.sUnb,
+      Ext.refl_bind st s _ _ _ P.sLt P.wf⟩
 
 /-- `G, S0 = S` where `G` left the state alone (`keep`) or failed, and possibly cut (`c`) -/
 theorem conj_eq_tail (uf : Nat) (huf : 1 ≤ uf) (call : Term → St → Res SOut) {st : St} {x : Term}
@@ -392,13 +394,15 @@ theorem body_sim (cfg : Cfg) (hcfg : cfg.engine = false) (huf : 1 ≤ cfg.uf)
     simp only [Body.simple, List.all_eq_true] at hs
     simp only [Body.need] at hn
     simp only [Body.tr, solveGoal_eq, denBody]
-    rw [unify_terminals s ts cfg.uf st.σ x l P.inp P.gl hs P.sUnb hn,
-        consume_ground cfg.uf dst ts l P.gl hs (fun t ht => Nat.le_trans (size_le_list t ts ht) hn)]
+    rw [consume_ground cfg.uf dst ts l P.inp.ground hs (fun t ht => Nat.le_trans (size_le_list t ts ht) hn)]
+    obtain ⟨hnone, hsome⟩ := unify_terminals_den s ts cfg.uf st.σ x l P.inp hs P.sUnb hn
     cases hsp : stripPrefix ts l with
-    | none => exact ⟨rfl, .nil⟩
+    | none => rw [hnone hsp]; exact ⟨rfl, .nil⟩
     | some l' =>
-      refine ⟨rfl, .cons ⟨rfl, l', rfl, stripPrefix_ground ts l l' P.gl hsp, ?_, ?_⟩ .nil⟩
-      · exact walk_bind st.σ s _ P.sUnb
+      obtain ⟨t', e1, e2, e3⟩ := hsome l' hsp
+      rw [e1]
+      refine ⟨rfl, .cons ⟨rfl, l', rfl, ?_, ?_⟩ .nil⟩
+      · exact Denotes.of_bind s e3 e2 P.sUnb
       · exact Ext.refl_bind st s _ _ _ P.sLt P.wf
   | nt f as =>
     intro hs _ top st dst x l s m P
@@ -408,7 +412,7 @@ theorem body_sim (cfg : Cfg) (hcfg : cfg.engine = false) (huf : 1 ≤ cfg.uf)
     rw [hg, solveGoal_user _ _ _ _ _ _ hf]
     simp only [denBody]
     have P0 : Pre st x l s 0 0 :=
-      ⟨P.inp, P.gl, P.sUnb, fun _ _ h => by omega, P.sLt, Nat.zero_le _, fun h => by omega, P.wf⟩
+      ⟨P.inp, P.sUnb, fun _ _ h => by omega, P.sLt, Nat.zero_le _, fun h => by omega, P.wf⟩
     exact (H f hf st dst x l s P0).mono (fun v h1 h2 => by omega)
   | seq a b iha ihb =>
     intro hs hn top st dst x l s m P
@@ -417,7 +421,7 @@ theorem body_sim (cfg : Cfg) (hcfg : cfg.engine = false) (huf : 1 ≤ cfg.uf)
     simp only [Body.nhid] at P ⊢
     simp only [Body.tr, tr_next, solveGoal_conj, denBody]
     have Pa : Pre st x l m (m + 1) (m + 1 + a.nhid) :=
-      ⟨P.inp, P.gl, fun p hp h => P.hUnb p hp (by omega), fun p hp h => P.hUnb p hp (by omega),
+      ⟨P.inp, fun p hp h => P.hUnb p hp (by omega), fun p hp h => P.hUnb p hp (by omega),
         by have := P.hiLe; omega, by have := P.hiLe; omega, fun h => by omega, P.wf⟩
     have ra := iha hs.1 (by omega) false st dst x l m (m + 1) Pa
     cases hxa : solveGoal cfg.uf call (a.tr x (.var m) (m + 1)).1 st with
@@ -436,9 +440,9 @@ theorem body_sim (cfg : Cfg) (hcfg : cfg.engine = false) (huf : 1 ≤ cfg.uf)
           (lo2 := m + 1 + a.nhid) (hi2 := m + 1 + a.nhid + b.nhid)
           (fun st' => solveGoal cfg.uf call (b.tr (.var m) (.var s) (m + 1 + a.nhid)).1 st')
           (fun st' l' => denBody cfg dyn false b st' l')
-          (fun st' r hext hw gr => by
+          (fun st' r hext hw => by
             have Pb : Pre st' (.var m) r s (m + 1 + a.nhid) (m + 1 + a.nhid + b.nhid) :=
-              ⟨hw, gr,
+              ⟨hw,
                hext.unbound s P.sUnb hsm (fun h => P.sOut (by omega)) P.sLt,
                hext.hUnb (fun p hp h => P.hUnb p hp (by omega)) (by omega) (Nat.le_refl _)
                  (by have := P.hiLe; omega),
@@ -467,10 +471,10 @@ theorem body_sim (cfg : Cfg) (hcfg : cfg.engine = false) (huf : 1 ≤ cfg.uf)
     simp only [Body.tr, tr_next, denBody, hcfg, Bool.false_and, Bool.false_eq_true, if_false]
     rw [solveGoal_disj _ _ _ _ _ (tr_notThen a hs.1.1 hs.2 _ _ _)]
     have Pa : Pre st x l s m (m + a.nhid) :=
-      ⟨P.inp, P.gl, P.sUnb, fun p hp h => P.hUnb p hp (by omega), P.sLt,
+      ⟨P.inp, P.sUnb, fun p hp h => P.hUnb p hp (by omega), P.sLt,
         by have := P.hiLe; omega, fun h => P.sOut (by omega), P.wf⟩
     have Pb : Pre st x l s (m + a.nhid) (m + a.nhid + b.nhid) :=
-      ⟨P.inp, P.gl, P.sUnb, fun p hp h => P.hUnb p hp (by omega), P.sLt,
+      ⟨P.inp, P.sUnb, fun p hp h => P.hUnb p hp (by omega), P.sLt,
         by have := P.hiLe; omega, fun h => P.sOut (by omega), P.wf⟩
     have ra := (iha hs.1.1 (by omega) false st dst x l s m Pa).mono
       (lo' := m) (hi' := m + (a.nhid + b.nhid)) (fun v h1 h2 => by omega)
@@ -512,7 +516,7 @@ theorem body_sim (cfg : Cfg) (hcfg : cfg.engine = false) (huf : 1 ≤ cfg.uf)
     simp only [Body.nhid] at P ⊢
     simp only [Body.tr, tr_next, solveGoal_ite, denBody, hcfg, Bool.false_eq_true, if_false]
     have Pc : Pre st x l m (m + 1) (m + 1 + c.nhid) :=
-      ⟨P.inp, P.gl, fun p hp h => P.hUnb p hp (by omega), fun p hp h => P.hUnb p hp (by omega),
+      ⟨P.inp, fun p hp h => P.hUnb p hp (by omega), fun p hp h => P.hUnb p hp (by omega),
         by have := P.hiLe; omega, by have := P.hiLe; omega, fun h => by omega, P.wf⟩
     have rc := ihc hs.1.1 (by omega) true st dst x l m (m + 1) Pc
     cases hxc : solveGoal cfg.uf call (c.tr x (.var m) (m + 1)).1 st with
@@ -534,7 +538,7 @@ theorem body_sim (cfg : Cfg) (hcfg : cfg.engine = false) (huf : 1 ≤ cfg.uf)
           | nil =>
             simp only [hA, hD]
             have Pe : Pre st x l s (m + 1 + c.nhid + t.nhid) (m + 1 + c.nhid + t.nhid + e.nhid) :=
-              ⟨P.inp, P.gl, P.sUnb, fun p hp h => P.hUnb p hp (by omega), P.sLt,
+              ⟨P.inp, P.sUnb, fun p hp h => P.hUnb p hp (by omega), P.sLt,
                 by have := P.hiLe; omega, fun h => P.sOut (by omega), P.wf⟩
             exact (ihe hs.2 (by omega) true st dst x l s (m + 1 + c.nhid + t.nhid) Pe).mono
               (fun v h1 h2 => by omega)
@@ -547,13 +551,13 @@ theorem body_sim (cfg : Cfg) (hcfg : cfg.engine = false) (huf : 1 ≤ cfg.uf)
             cases hall with
             | cons hr _ =>
               obtain ⟨sa, ra⟩ := d
-              obtain ⟨e1, r, e2, gr, hw, hext⟩ := hr
+              obtain ⟨e1, r, e2, hw, hext⟩ := hr
               simp only at e1 e2
               subst e1 e2
               simp only [hA, hD]
               have hsm : s ≠ m := fun h => P.sOut (by omega)
               have Pt : Pre st' (.var m) r s (m + 1 + c.nhid) (m + 1 + c.nhid + t.nhid) :=
-                ⟨hw, gr,
+                ⟨hw,
                  hext.unbound s P.sUnb hsm (fun h => P.sOut (by omega)) P.sLt,
                  hext.hUnb (fun p hp h => P.hUnb p hp (by omega)) (by omega) (Nat.le_refl _)
                    (by have := P.hiLe; omega),
@@ -571,7 +575,7 @@ theorem body_sim (cfg : Cfg) (hcfg : cfg.engine = false) (huf : 1 ≤ cfg.uf)
     simp only [Body.nhid] at P ⊢
     simp only [Body.tr, tr_next, solveGoal_ifthen, denBody, hcfg, Bool.false_eq_true, if_false]
     have Pc : Pre st x l m (m + 1) (m + 1 + c.nhid) :=
-      ⟨P.inp, P.gl, fun p hp h => P.hUnb p hp (by omega), fun p hp h => P.hUnb p hp (by omega),
+      ⟨P.inp, fun p hp h => P.hUnb p hp (by omega), fun p hp h => P.hUnb p hp (by omega),
         by have := P.hiLe; omega, by have := P.hiLe; omega, fun h => by omega, P.wf⟩
     have rc := ihc hs.1 (by omega) true st dst x l m (m + 1) Pc
     cases hxc : solveGoal cfg.uf call (c.tr x (.var m) (m + 1)).1 st with
@@ -600,13 +604,13 @@ theorem body_sim (cfg : Cfg) (hcfg : cfg.engine = false) (huf : 1 ≤ cfg.uf)
             cases hall with
             | cons hr _ =>
               obtain ⟨sa, ra⟩ := d
-              obtain ⟨e1, r, e2, gr, hw, hext⟩ := hr
+              obtain ⟨e1, r, e2, hw, hext⟩ := hr
               simp only at e1 e2
               subst e1 e2
               simp only [hA, hD]
               have hsm : s ≠ m := fun h => P.sOut (by omega)
               have Pt : Pre st' (.var m) r s (m + 1 + c.nhid) (m + 1 + c.nhid + t.nhid) :=
-                ⟨hw, gr,
+                ⟨hw,
                  hext.unbound s P.sUnb hsm (fun h => P.sOut (by omega)) P.sLt,
                  hext.hUnb (fun p hp h => P.hUnb p hp (by omega)) (by omega) (Nat.le_refl _)
                    (by have := P.hiLe; omega),
@@ -633,7 +637,7 @@ theorem body_sim (cfg : Cfg) (hcfg : cfg.engine = false) (huf : 1 ≤ cfg.uf)
     simp only [Body.nhid] at P ⊢
     simp only [Body.tr, solveGoal_conj, solveGoal_not, denBody]
     have Pb : Pre st x l m (m + 1) (m + 1 + b.nhid) :=
-      ⟨P.inp, P.gl, fun p hp h => P.hUnb p hp (by omega), fun p hp h => P.hUnb p hp (by omega),
+      ⟨P.inp, fun p hp h => P.hUnb p hp (by omega), fun p hp h => P.hUnb p hp (by omega),
         by have := P.hiLe; omega, by have := P.hiLe; omega, fun h => by omega, P.wf⟩
     have rb := ih hs hn true st dst x l m (m + 1) Pb
     cases hxb : solveGoal cfg.uf call (b.tr x (.var m) (m + 1)).1 st with
